@@ -7,6 +7,32 @@ from pathlib import Path
 VERIF = Path(__file__).resolve().parents[1]
 
 CHECKS = {
+    "C03": dict(
+        category="fault_enumeration", design_ref="DESIGN.md §2 C03",
+        technique="crash-point enumeration: child process killed (os._exit) before every measured OS-level call of each operation, then reopen + state oracle by an independent reader",
+        text="For 9 operation types on tables with 0/1/3 prior snapshots a dry run in a child process measures every "
+             "effectful OS-level call under the table root (open-for-write, write, fsync, close, replace, remove, mkdir, "
+             "flock, parquet-writer stages); a fresh child is then killed immediately before call #k for every k, with "
+             "torn-write and truncated-temp-parquet variants. After each crash the parent checks: state is pre or post "
+             "(post only if the pointer moved), every retained snapshot readable by the independent reader and by the "
+             "library, a follow-up append yields state+1, and a collection (grace 0, marker timeout 0) deletes nothing "
+             "reachable and leaves the table intact.",
+        note="Process-crash model (completed syscalls persist); kills inside pyarrow's C++ writes are emulated by "
+             "truncating the temporary file.",
+    ),
+    "C04": dict(
+        category="fault_enumeration", design_ref="DESIGN.md §2 C04",
+        technique="enumerated fault injection at every storage call / S3 request of each commit scenario (before effect, after effect, asynchronous BaseException, double faults, line-level interrupts via sys.monitoring) with an outcome<->state oracle",
+        text="A dry run measures the L1 calls (local) / S3 requests (CAS and non-CAS double) of 6 commit scenarios in up "
+             "to 3 call styles; every call is failed before its effect (OSError, ENOSPC | transient beyond budget, "
+             "permanent), after its effect (S3 PUT/DELETE applied then client error: ambiguous commits), and surrounded "
+             "by KeyboardInterrupt/SystemExit; double faults hit the next clean-up call; line-level KeyboardInterrupts "
+             "(every 6th line event of append in quick, every line event of all scenarios in thorough). Oracle: "
+             "returned=>post; storage error=>pre unless AmbiguousCommitError (then no transaction file deleted); "
+             "BaseException=>pre or post; referenced files exist; same and fresh handle stay writable; uncommitted "
+             "files never become reachable after a follow-up commit and a collection.",
+        note="Single faults + one class of double faults; interrupts between bytecodes of one line are not explored.",
+    ),
     "C17": dict(
         category="exploration", design_ref="DESIGN.md §2 C17",
         technique="process-wide audit-hook containment monitor + sentinel-tree fingerprint + independent path classifier over an exhaustive path grammar x entry points x root spellings, and tampered-table scans/collections",
